@@ -329,4 +329,24 @@ def run(tier, seed, replay=None):
         R.corr_broken.append(f"optimality of {und_convex} results for CONVEX pairs could neither be certified (no separating "
                              f"direction proves d - tol) nor refuted (no closer pair found): "
                              + "; ".join(sorted({fn for fn, st in per_fn.items() if st.get('undecided') and 'circle' not in fn})))
+    # ---- targeted search (DESIGN 3.5): proof or correspondence broke but no failing input yet -> bigger budget on the
+    #      functions whose model and implementation disagree (same streams), judged by the same oracle
+    if (R.proof_broken or R.corr_broken) and not unknown and not replay:
+        sus = sorted({c["fn"] for c in getattr(R, "mismatch_cases", [])}) or sorted(
+            {fn for fn, st in per_fn.items() if st.get("undecided") and "circle" not in fn})
+        extra = []
+        for fn in sus[:6]:
+            ka, kb = pl.kinds_of(fn)
+            uniq = list(dict.fromkeys(pl.stream_mix(ka, kb)))
+            extra += [pl.gen_pair(R.rng, fn, uniq[k % len(uniq)]) for k in range(400)]
+        extra = [c for c in extra if not (c["fn"] in EPS_FUNCS and in_band(c))]
+        if extra:
+            res2, _ = c10.run_impl_cases(PID, extra, tag="search")
+            R.cov["search_evaluations"] = len(extra)
+            for c, r in zip(extra, res2):
+                v, det = judge(c, r, R.rng)
+                if v == "fail" and not (known_id(c, r) in known):
+                    R.failure(f"{c['fn']}: returned d = {det['d']:.9g} but a pair at distance {det['closer']:.9g} exists ({det['how']})",
+                              c, site=c["fn"])
+                    break
     return R.finish()
